@@ -106,86 +106,20 @@ impl ConfirmationActor {
         self.broadcast_tx.clone()
     }
 
-    fn broadcast_confirmed_events(
-        &mut self,
-        partition_id: PartitionId,
-        old_watermark: u64,
-        new_watermark: u64,
-    ) {
-        let Some(partition_events) = self.pending_events.get_mut(&partition_id) else {
-            return;
-        };
-
-        // Broadcast events in sequence order from old_watermark+1 to new_watermark
-        let mut events_to_broadcast = Vec::new();
-        let mut sequences_to_remove = Vec::new();
-
-        for sequence in (old_watermark + 1)..=new_watermark {
-            if let Some(event) = partition_events.get(&sequence) {
-                events_to_broadcast.push(event.clone());
-                sequences_to_remove.push(sequence);
-            }
-        }
-
-        // Broadcast events in order
-        for event in events_to_broadcast {
-            match self.broadcast_tx.send(event) {
-                Ok(0) | Err(_) => break, // No subscribers or channel closed
-                Ok(_) => {}              // Successfully broadcast
-            }
-        }
-
-        // Clean up broadcast events from buffer
-        for sequence in sequences_to_remove {
-            partition_events.remove(&sequence);
-        }
-
-        // Clean up empty partition entries
-        if partition_events.is_empty() {
-            self.pending_events.remove(&partition_id);
-        }
-    }
-}
-
-// Message types for different operations
-
-/// Update confirmation and broadcast confirmed events atomically
-#[derive(Debug, Clone, Serialize, Deserialize)]
-pub struct UpdateConfirmationWithBroadcast {
-    pub partition_id: PartitionId,
-    pub versions: SmallVec<[u64; 4]>,
-    pub confirmation_count: u8,
-    pub partition_sequences: (u64, u64), // (first, last)
-}
-
-impl Message<UpdateConfirmationWithBroadcast> for ConfirmationActor {
-    type Reply = Result<SmallVec<[bool; 4]>, ConfirmationError>;
-
-    async fn handle(
-        &mut self,
-        msg: UpdateConfirmationWithBroadcast,
-        _ctx: &mut Context<Self, Self::Reply>,
-    ) -> Self::Reply {
-        // Update confirmations
-        let mut results = SmallVec::new();
-        for version in &msg.versions {
-            let advanced = self
-                .manager
-                .update_confirmation(msg.partition_id, *version, msg.confirmation_count)
-                .await?;
-            results.push(advanced);
-        }
-
+    /// Broadcasts, in sequence order, every event of the partition that lies below the watermark
+    /// and has not been broadcast yet. The events are read from the database, so this works on
+    /// every node, whichever message made the watermark advance.
+    async fn broadcast_confirmed_events(&mut self, partition_id: PartitionId) {
         let watermark = self
             .manager
-            .get_watermark(msg.partition_id)
+            .get_watermark(partition_id)
             .map(|w| w.get())
             .unwrap_or(0);
 
-        let next_to_broadcast = self.next_broadcast_seq.entry(msg.partition_id).or_insert(0);
+        let next_to_broadcast = self.next_broadcast_seq.entry(partition_id).or_insert(0);
 
         if watermark == 0 {
-            return Ok(results);
+            return;
         }
 
         let highest_confirmed_seq = watermark - 1;
@@ -199,7 +133,7 @@ impl Message<UpdateConfirmationWithBroadcast> for ConfirmationActor {
 
             if let Ok(mut iter) = self
                 .database
-                .read_partition(msg.partition_id, broadcast_from, IterDirection::Forward)
+                .read_partition(partition_id, broadcast_from, IterDirection::Forward)
                 .await
             {
                 'outer: while let Ok(Some(commits)) = iter.next_batch(DEFAULT_BATCH_SIZE).await {
@@ -243,6 +177,39 @@ impl Message<UpdateConfirmationWithBroadcast> for ConfirmationActor {
                 }
             }
         }
+    }
+}
+
+// Message types for different operations
+
+/// Update confirmation and broadcast confirmed events atomically
+#[derive(Debug, Clone, Serialize, Deserialize)]
+pub struct UpdateConfirmationWithBroadcast {
+    pub partition_id: PartitionId,
+    pub versions: SmallVec<[u64; 4]>,
+    pub confirmation_count: u8,
+    pub partition_sequences: (u64, u64), // (first, last)
+}
+
+impl Message<UpdateConfirmationWithBroadcast> for ConfirmationActor {
+    type Reply = Result<SmallVec<[bool; 4]>, ConfirmationError>;
+
+    async fn handle(
+        &mut self,
+        msg: UpdateConfirmationWithBroadcast,
+        _ctx: &mut Context<Self, Self::Reply>,
+    ) -> Self::Reply {
+        // Update confirmations
+        let mut results = SmallVec::new();
+        for version in &msg.versions {
+            let advanced = self
+                .manager
+                .update_confirmation(msg.partition_id, *version, msg.confirmation_count)
+                .await?;
+            results.push(advanced);
+        }
+
+        self.broadcast_confirmed_events(msg.partition_id).await;
 
         Ok(results)
     }
@@ -346,11 +313,6 @@ impl Message<UpdateConfirmation> for ConfirmationActor {
         _ctx: &mut Context<Self, Self::Reply>,
     ) -> Self::Reply {
         let mut results = SmallVec::new();
-        let old_watermark = self
-            .manager
-            .get_watermark(msg.partition_id)
-            .map(|w| w.get())
-            .unwrap_or(0);
 
         for version in msg.versions {
             let advanced = self
@@ -362,13 +324,7 @@ impl Message<UpdateConfirmation> for ConfirmationActor {
 
         // If watermark advanced, broadcast newly confirmed events
         if results.iter().any(|&advanced| advanced) {
-            let new_watermark = self
-                .manager
-                .get_watermark(msg.partition_id)
-                .map(|w| w.get())
-                .unwrap_or(0);
-
-            self.broadcast_confirmed_events(msg.partition_id, old_watermark, new_watermark);
+            self.broadcast_confirmed_events(msg.partition_id).await;
         }
 
         Ok(results)
